@@ -72,8 +72,91 @@ def pyval(v) -> str:
     return f".atom {atom(v)}"
 
 
-def extract():
-    """Return the tables as Python data (also used by the harness generators)."""
+def sentinel_tests(S):
+    """The "is this option still at its default?" tests of `ProjectSettings.normalise_paths`:
+    every `if` statement of the method body (top level) is read as
+
+        if <self.FIELD | Path(self.FIELD)> == <SENTINEL>:  self.FIELD = <REPLACEMENT>
+
+    and exported as (FIELD, compared through Path()?, str(SENTINEL), replacement kind).  The
+    sentinel and the replacement are *evaluated* in the module's namespace (so renaming a
+    constant does not matter); any `if` of another shape raises: the model would not know
+    what the code does."""
+    import ast
+    import inspect
+    import textwrap
+
+    fn = S.ProjectSettings.normalise_paths
+    tree = ast.parse(textwrap.dedent(inspect.getsource(fn)))
+    fdef = tree.body[0]
+    if not isinstance(fdef, ast.FunctionDef):
+        raise RuntimeError("normalise_paths: no function definition")
+    self_name = fdef.args.args[0].arg
+    ns = dict(vars(S))
+    ns["__file__"] = S.__file__
+    pkg = pathlib.Path(S.__file__).parent
+
+    def field_of(node):
+        if isinstance(node, ast.Attribute) and isinstance(node.value, ast.Name) and node.value.id == self_name:
+            return node.attr
+        return None
+
+    def ev(node):
+        return eval(compile(ast.Expression(node), "<normalise_paths>", "eval"), ns)
+
+    names = {f.name for f in dataclasses.fields(S.ProjectSettings)}
+    out = []
+    for st in fdef.body:
+        if not isinstance(st, ast.If):
+            continue
+        where = f"normalise_paths line {st.lineno}: `{ast.unparse(st.test)}`"
+        t = st.test
+        if isinstance(t, ast.Attribute) and field_of(t) in names and not st.orelse:
+            continue   # `if self.relative:` - a plain flag test (modelled as such), not a sentinel comparison
+        if isinstance(t, ast.Compare) and len(t.ops) == 1 and isinstance(t.ops[0], ast.Is) and field_of(t.left) is None:
+            continue   # `if directory is None:` - about the argument, not about a field
+        if not (isinstance(t, ast.Compare) and len(t.ops) == 1 and isinstance(t.ops[0], ast.Eq)) or st.orelse:
+            raise RuntimeError(f"{where}: a test on a settings field of a shape the model does not know")
+        left, right = t.left, t.comparators[0]
+        coerce = False
+        fld = field_of(left)
+        if fld is None and isinstance(left, ast.Call) and len(left.args) == 1 and not left.keywords \
+                and field_of(left.args[0]) is not None:
+            conv = ev(left.func)
+            if not (isinstance(conv, type) and issubclass(conv, pathlib.PurePath)):
+                raise RuntimeError(f"{where}: field compared through {ast.unparse(left.func)}, not a path class")
+            coerce, fld = True, field_of(left.args[0])
+        if fld is None or fld not in names:
+            raise RuntimeError(f"{where}: left side is not a settings field")
+        sentinel = ev(right)
+        if not isinstance(sentinel, pathlib.PurePath):
+            raise RuntimeError(f"{where}: sentinel {sentinel!r} is not a Path")
+        if len(st.body) != 1 or not isinstance(st.body[0], ast.Assign) or len(st.body[0].targets) != 1 \
+                or field_of(st.body[0].targets[0]) != fld:
+            raise RuntimeError(f"{where}: body is not a single assignment to self.{fld}")
+        val = st.body[0].value
+        if field_of(val) == "directory":
+            repl = "projectDir"
+        else:
+            try:
+                r = ev(val)
+            except Exception as e:  # noqa
+                raise RuntimeError(f"{where}: replacement `{ast.unparse(val)}` cannot be evaluated: {e}")
+            if r != pkg / sentinel:
+                raise RuntimeError(f"{where}: replacement `{ast.unparse(val)}` is neither the project directory "
+                                   f"nor the package's file of the sentinel's name")
+            repl = "packageFile"
+        out.append((fld, coerce, str(sentinel), repl))
+    if not out:
+        raise RuntimeError("normalise_paths: no sentinel test found (favicon / md_base_dir)")
+    return out
+
+
+def extract(strict=True):
+    """Return the tables as Python data (also used by the harness generators).  `strict=False`
+    (only for the harness, after `translate()` has already failed and been reported as a broken
+    tie): a sentinel test of unknown shape does not raise, so that the property oracle can still
+    be evaluated on the implementation and produce a concrete failing input."""
     ford = common.import_ford()
     import ford.settings as S
 
@@ -147,7 +230,17 @@ def extract():
         "schema": schema, "seps": seps, "cli": cli,
         "intrinsic": dict(S.INTRINSIC_MODS), "licenses": lic,
         "favicon": str(S.FAVICON_PATH),
+        "sentinels": _sentinels(S, strict),
     }
+
+
+def _sentinels(S, strict):
+    try:
+        return sentinel_tests(S)
+    except RuntimeError:
+        if strict:
+            raise
+        return []
 
 
 def translate():
@@ -177,6 +270,11 @@ def translate():
     out.append(",\n".join(f"  ({lstr(k)}, {lstr(v)})" for k, v in t["licenses"].items()))
     out.append("]\n")
     out.append(f"def faviconDefault : Str := {lstr(t['favicon'])}\n")
+    out.append("/-- the \"still the default?\" tests of `ProjectSettings.normalise_paths`, in source order:")
+    out.append("    (field, compared through `Path(...)`?, sentinel, replacement) -/")
+    out.append("def sentinelTests : List (Str × Bool × Str × SentinelRepl) := [")
+    out.append(",\n".join(f"  ({lstr(f)}, {'true' if c else 'false'}, {lstr(sn)}, SentinelRepl.{r})" for f, c, sn, r in t["sentinels"]))
+    out.append("]\n")
     out.append("end Ford.Generated\n")
     common.write_if_changed(common.LEAN / "FordModel" / "Generated" / "C15.lean", "\n".join(out))
     return t
